@@ -72,7 +72,14 @@ EXTRA_ATOMS = [
     A("fntd2", "{t}_fn2 *{p}ft2;", [("{p}ft2", "agg")], support="typedef int {t}_fn2(int, char);"),
     A("fntd13", "{t}_fn13 *{p}ft13;", [("{p}ft13", "agg")], support="typedef int {t}_fn13(int, int, int, int, int, int, int, int, int, int, int, int, int);"),
     A("pfntd13", "{t}_pfn13 {p}pf13;", [("{p}pf13", "agg")], support="typedef int (*{t}_pfn13)(int, int, int, int, int, int, int, int, int, int, int, int, int);"),
+    # arrays whose element is aligned to more than 8 bytes (one- and two-dimensional, through a typedef'd row, scalar element)
+    A("oal1d", "struct {t}_V1 {p}o1[2];", [("{p}o1", "arr")], support="struct __attribute__((aligned(16))) {t}_V1 {{ float v[4]; }};"),
+    A("oal2d", "struct {t}_V2 {p}o2[2][3];", [("{p}o2", "arr")], support="struct __attribute__((aligned(16))) {t}_V2 {{ float v[4]; }};"),
+    A("oalrow", "{t}_Row3 {p}o3[2];", [("{p}o3", "arr")], support="struct __attribute__((aligned(32))) {t}_V3 {{ char c; }}; typedef struct {t}_V3 {t}_Row3[3];"),
+    A("i128x2d", "__int128 {p}o4[2][2];", [("{p}o4", "arr")]),
+    A("ldx2d", "long double {p}o5[3][2];", [("{p}o5", "arr")]),
 ]
+OVERALIGNED_ARRAY_ATOMS = ["oal1d", "oal2d", "oalrow", "i128x2d", "ldx2d"]
 ATOM = {a.key: a for a in ATOMS + EXTRA_ATOMS}
 
 # record attributes: (key, text before `struct`, attribute after `struct`, text after the declaration)
